@@ -4,5 +4,5 @@ CONSTANTS
   Dev = {}
 SPECIFICATION Spec
 CHECK_DEADLOCK FALSE
-INVARIANTS TypeOK AtMostOnce OnlySubmittedRun LockNotHeldWhileRunning LockConsistent NeverPoisoned NoLossNoDup NoPrematureExit
+INVARIANTS TypeOK AtMostOnce OnlySubmittedRun LockNotHeldWhileRunning LockConsistent NeverPoisoned NoLossNoDup NoPrematureExit SingleShutdown
 PROPERTIES LiveAll
